@@ -106,6 +106,9 @@ impl Composer {
     fn append_witness_internal(&mut self, witness: BlsScalar) -> Witness {
         let n = self.witnesses.len();
 
+        #[cfg(dusk_plonk_verif)]
+        let witness = crate::verif::witness_fault(n, witness);
+
         // Get a new Witness from the permutation
         self.perm.new_witness();
 
